@@ -6,7 +6,7 @@
    model needs to run: the runtime part of C12 is exploration, not a model computation. *)
 let verdict =
   match SyncTable.race_exceptions with
-  | [] -> if Sync.table_ok SyncTable.table then "ok" else "table-rejected"
+  | [] -> if Sync.table_ok (Sync.with_result_readers SyncTable.table) then "ok" else "table-rejected"
   | _ -> "table-rejected"
 
 let () =
